@@ -62,6 +62,9 @@ func (r *rec) WriteHeader(code int) {
 	if r.wrote {
 		return
 	}
+	if code >= 100 && code <= 199 && code != 101 {
+		return // informational: net/http sends it at once and keeps waiting for the final status
+	}
 	r.wrote = true
 	r.code = code
 	r.snap = r.hdr.Clone()
